@@ -757,7 +757,7 @@ def part_packaging(ctx):
         ctx.count("pkg_" + profile)
         ctx.count("pkg_options_" + ("empty" if not options else "in_fragment" if in_fragment(options) else "outside_fragment"))
         ctx.case(("pkg", tuple((a, sha(b)) for a, b in packaged), tuple(opts_canon(options))), nontrivial=True,
-                 sample={"kind": "packaging", "sources": [(a, len(b)) for a, b in packaged], "options": opts_canon(options),
+                 sample=None if i else {"kind": "packaging", "sources": [(a, len(b)) for a, b in packaged], "options": opts_canon(options),
                          "writes": [len(w) for w in writes]})
         if not in_fragment(options):
             continue
@@ -901,7 +901,8 @@ def part_malformed(ctx, scr):
             _, m_status, m_mods, m_left = parse_run(run[0])
             model = (m_status, [(n, len(d), sha(d)) for n, d in m_mods])
             ctx.case(("malformed", desc, how), nontrivial=True,
-                     sample={"kind": "malformed upload", "what": desc, "cut": how, "impl": [status, [(n, l) for n, l, _ in mods_obs]]} if how == "dribble" else None)
+                     sample={"kind": "malformed upload", "what": desc, "cut": how, "impl": [status, [(n, l) for n, l, _ in mods_obs]]}
+                     if how == "dribble" and desc in ("EOF inside the body", "dotted name, parent missing") else None)
             ctx.count("malformed_" + status.split(":")[0].lower())
             if impl != model:
                 ctx.disagree("assembler on a malformed upload", {"what": desc, "cut": how, "stream": hx(body)[:300]},
@@ -1015,7 +1016,7 @@ def part_client(ctx):
                     m_ev, m_before, m_after = [x.strip() for x in mo.split("|")]
                     impl_s = ",".join(ev)
                     ctx.case(("client", tuple(sc), poll, tuple(seed) if seed is not None else None, accept), nontrivial=True,
-                             sample={"kind": "client start-up", "server_deliveries": [hx(c) for c in sc], "poll": poll,
+                             sample=None if n not in (3, 40) else {"kind": "client start-up", "server_deliveries": [hx(c) for c in sc], "poll": poll,
                                      "seed_hosts": seed if seed is None or len("".join(seed)) < 100 else "70000 bytes", "first_write_accepts": accept,
                                      "trace": [e[:40] for e in ev]})
                     ctx.count("client_" + ("syncok" if "OK" in ev else "fatal"))
